@@ -264,6 +264,86 @@ theorem C11_ctx_mirror (d : Dec) (p : Nat) (m : Mode) (h : d.int < 0) :
     rw [hneg, hpos, hn]
     exact C11_mirror _ _ _ _
 
+/-- the floor cube root of a number with at least `3(p+4)` digits has at least `p+4` digits, so at
+    least four digits are trimmed and the inline rounding always has a digit to look at -/
+theorem icbrt_digits (D p : Nat) (hD : 3 * (p + 4) ≤ numDigits D) : p + 4 ≤ numDigits (icbrt D) := by
+  obtain ⟨h1, h2⟩ := C11_icbrt_floor D
+  have hD0 : D ≠ 0 := by
+    intro h; rw [h, numDigits_zero] at hD; omega
+  have hlow := pow_numDigits_le D hD0
+  have hpow : 10 ^ (3 * (p + 4) - 1) ≤ D :=
+    le_trans (Nat.pow_le_pow_right (by norm_num) (by omega)) hlow
+  -- (10^(p+3))^3 = 10^(3p+9) ≤ 10^(3p+11) ≤ D < (r+1)^3
+  have hcube : (10 ^ (p + 3)) * (10 ^ (p + 3)) * (10 ^ (p + 3)) ≤ D := by
+    calc (10 ^ (p + 3)) * (10 ^ (p + 3)) * (10 ^ (p + 3)) = 10 ^ (3 * (p + 3)) := by
+          rw [← Nat.pow_add, ← Nat.pow_add]; congr 1; ring
+      _ ≤ 10 ^ (3 * (p + 4) - 1) := Nat.pow_le_pow_right (by norm_num) (by omega)
+      _ ≤ D := hpow
+  have hr : 10 ^ (p + 3) ≤ icbrt D := by
+    by_contra hlt
+    have hlt' : icbrt D < 10 ^ (p + 3) := by omega
+    have := (cbrt_floor_cmp D (icbrt D) (10 ^ (p + 3)) h1 h2).mp hlt'
+    omega
+  have hne : icbrt D ≠ 0 := by
+    have : 0 < 10 ^ (p + 3) := by positivity
+    omega
+  by_contra hnd
+  have hlt := lt_pow_numDigits (icbrt D)
+  have : 10 ^ numDigits (icbrt D) ≤ 10 ^ (p + 3) := Nat.pow_le_pow_right (by norm_num) (by omega)
+  omega
+
+/-- **assembly.**  For every non-zero magnitude, scale, precision, mode and sign, `impl_cbrt` returns
+    the floor cube root `r` of the shifted integer `D` cut after `p` digits (`t ≥ 4` digits dropped),
+    incremented exactly when the declarative `roundUpM` says so on the virtual tail `2·(r mod 10^t) + δ`
+    of modulus `2·10^t` - whose comparisons are those of the real `∛D` (`C11_decisions`) - at the scale
+    `(scale + shift)/3 − t` (`C11_scale_third`).  That is: the true root rounded as the context dictates. -/
+theorem C11_implCbrt_spec (n : Nat) (scale : Int) (p : Nat) (m : Mode) (neg : Bool) (hn : n ≠ 0) :
+    let shift0 := 3 * (p + cbrtExtraDigits) - numDigits n
+    let ss : Int := scale + shift0
+    let rem3 := (tdivRem ss 3).2
+    let newScale0 : Int := if rem3 > 0 then (tdivRem ss 3).1 + 1 else (tdivRem ss 3).1
+    let expShift : Nat := if rem3 > 0 then shift0 + (3 - rem3).toNat else if rem3 < 0 then shift0 + (-rem3).toNat else shift0
+    let D := n * 10 ^ expShift
+    let r := icbrt D
+    let t := numDigits r - p
+    let δ := if r * r * r = D then 0 else 1
+    4 ≤ t ∧
+    implCbrt n scale p m neg =
+      ⟨(if neg then -1 else 1) *
+        ((r / 10 ^ t + (if roundUpM m neg (r / 10 ^ t) (2 * (r % 10 ^ t) + δ) (2 * 10 ^ t) then 1 else 0) : Nat) : Int),
+       newScale0 - t⟩ := by
+  intro shift0 ss rem3 newScale0 expShift D r t δ
+  have hge : shift0 ≤ expShift := by
+    show shift0 ≤ (if rem3 > 0 then shift0 + (3 - rem3).toNat else if rem3 < 0 then shift0 + (-rem3).toNat else shift0)
+    split
+    · omega
+    · split <;> omega
+  have hdig : 3 * (p + 4) ≤ numDigits D := by
+    show 3 * (p + 4) ≤ numDigits (n * 10 ^ expShift)
+    rw [numDigits_mul_pow n expShift hn]
+    have : shift0 = 3 * (p + 4) - numDigits n := rfl
+    omega
+  have hrd := icbrt_digits D p hdig
+  have ht : 4 ≤ t := by show 4 ≤ numDigits (icbrt D) - p; omega
+  refine ⟨ht, ?_⟩
+  have hcr := C11_code_rounding m neg r t (by omega) (r * r * r == D)
+  have hδ : (if (r * r * r == D) = true then 0 else 1) = δ := by
+    show _ = (if r * r * r = D then 0 else 1)
+    by_cases h : r * r * r = D <;> simp [h]
+  rw [hδ] at hcr
+  unfold implCbrt
+  simp only []
+  show (⟨(if neg then -1 else 1) * ((r / 10 ^ t + roundPair m neg (r / 10 ^ t % 10) (r % 10 ^ t / 10 ^ (t - 1))
+      (needsTrailingZeros m (r % 10 ^ t / 10 ^ (t - 1)) && (r * r * r == D && r % 10 ^ t % 10 ^ (t - 1) == 0)) - r / 10 ^ t % 10 : Nat) : Int),
+      newScale0 - t⟩ : Dec) = _
+  rw [hcr]
+  generalize (if roundUpM m neg (r / 10 ^ t) (2 * (r % 10 ^ t) + δ) (2 * 10 ^ t) = true then 1 else 0) = U
+  generalize r / 10 ^ t = A
+  have e : A + (A % 10 + U) - A % 10 = A + U := by
+    clear hcr hrd hdig hge ht
+    omega
+  rw [e]
+
 example : (Dec.mk (-27) 0).cbrtCtx 3 .Floor = ⟨-300, 2⟩ ∧ (Dec.mk 2 0).cbrtCtx 4 .HalfEven = ⟨1260, 3⟩ := by
   constructor <;> decide +kernel
 
